@@ -15,9 +15,15 @@ Definition E_UTF8 : Z := 3.
 
 Definition blen (s : list Z) : Z := Z.of_nat (length s).
 
-(* fixed_str_to_bytes::<MAX_LEN>: `if bytes.len() > MAX_LEN { Err }`, zero buffer, copy prefix *)
+Definition has_nul (s : list Z) : bool := existsb (fun x => x =? 0) s.
+
+(* fixed_str_to_bytes::<MAX_LEN> (after fix 71aae69):
+     if bytes.len() >= MAX_LEN { Err(ExceedMaxLengthLimit) }   -- room for the terminator
+     if bytes.contains(&0)     { Err(InvalidFormat) }
+     zero buffer, copy the bytes *)
 Definition str_to_bytes (max_len : Z) (s : list Z) : res (list Z) :=
-  if max_len <? blen s then Err E_LEN
+  if max_len <=? blen s then Err E_LEN
+  else if has_nul s then Err E_FORMAT
   else Ok (s ++ repeat 0 (Z.to_nat (max_len - blen s))).
 
 (* bytes.iter().position(|&x| x == 0) *)
@@ -65,7 +71,6 @@ Definition bytes_to_str (b : list Z) : res (list Z) :=
   | Some n => let v := firstn n b in if utf8_valid v then Ok v else Err E_UTF8
   end.
 
-Definition has_nul (s : list Z) : bool := existsb (fun x => x =? 0) s.
 Definition is_byte (x : Z) : bool := (0 <=? x) && (x <=? 255).
 
 (* a name that can be stored AND read back: strictly shorter than the field, no NUL *)
